@@ -27,8 +27,8 @@ class ContainerReindex(FunctionContract):
 
     def scenarios(self):
         # '+dup': the two labels of the old span may coincide (a label repeated in the old span addresses its first occurrence, as obj[name, label] does)
-        return [f'new{k}/{f}' for k in (0, 1, 2, 3) for f in ('nofill', 'fill_value', 'keyword-A', 'keyword-I', 'unknown-keyword-strict', 'unknown-keyword-lenient')] + \
-               [f'new{k}/{f}+dup' for k in (1, 2) for f in ('nofill', 'fill_value')]
+        return [f'new{k}/{f}' for k in (0, 1, 2, 3) for f in ('nofill', 'fill_value', 'keyword-A', 'keyword-I', 'unknown-keyword-strict', 'unknown-keyword-lenient', 'attribute-named-keyword-strict')] + \
+               [f'new{k}/{f}+dup' for k in (1, 2) for f in ('nofill', 'fill_value')] + ['new1/strict-argument-differs', 'new2/strict-argument-differs']
 
     def setup(self, interp, scenario):
         ctx = interp.ctx
@@ -50,7 +50,7 @@ class ContainerReindex(FunctionContract):
             return SArr(len(vals), s, kind)
         A_arr, I_arr = arr(a, 'float'), arr(iv, 'int')
         span = [SInt(x) for x in old_labels]
-        strict = fs == 'unknown-keyword-strict'
+        strict = fs in ('unknown-keyword-strict', 'attribute-named-keyword-strict')
         obj = SObj(VectorContainer, {'span': span, 'index': ['A', 'I'], '_strict': strict, '_attributes': ['_attributes', 'span', 'index', '_strict'],
                                      '_A': A_arr, '_I': I_arr}, label='c')
         e = dict(old=old_labels, new=new_labels, a=a, iv=iv, obj=obj, A_arr=A_arr, I_arr=I_arr, fs=fs, k=k)
@@ -66,6 +66,10 @@ class ContainerReindex(FunctionContract):
             kw['I'] = SInt(e['fill_I'])
         if fs.startswith('unknown-keyword'):
             kw['nosuch'] = 1
+        if fs == 'strict-argument-differs':
+            kw['strict'] = True       # only governs the check of the fill keywords of this call; the object (and the result) stay lenient
+        if fs == 'attribute-named-keyword-strict':
+            kw['index'] = 1           # the name of an attribute of the object, not of a variable: unknown all the same
         e['inputs'] = {f'old{i}': x for i, x in enumerate(old_labels)}
         e['inputs'].update({f'new{i}': x for i, x in enumerate(new_labels)})
 
@@ -92,10 +96,10 @@ class ContainerReindex(FunctionContract):
         e = call.entry
         fs = e['fs']
         if out.kind == 'raise':
-            ctx.prove(z3.BoolVal(exc_class(out.exc) is KeyError and fs == 'unknown-keyword-strict'), 'KeyError_only_for_unknown_fill_keywords_under_strict', 'raises')
+            ctx.prove(z3.BoolVal(exc_class(out.exc) is KeyError and fs in ('unknown-keyword-strict', 'attribute-named-keyword-strict')), 'KeyError_only_for_unknown_fill_keywords_under_strict', 'raises')
             return
         ctx.cover('returned')
-        ctx.prove(z3.BoolVal(fs != 'unknown-keyword-strict'), 'unknown_fill_keywords_are_rejected_under_strict', 'raises')
+        ctx.prove(z3.BoolVal(fs not in ('unknown-keyword-strict', 'attribute-named-keyword-strict')), 'unknown_fill_keywords_are_rejected_under_strict', 'raises')
         r = out.value
         ok = isinstance(r, SObj) and r is not e['obj'] and r.cls is e['obj'].cls
         ctx.prove(z3.BoolVal(ok), 'returns_a_new_object_of_the_same_class', 'ensures')
@@ -105,6 +109,8 @@ class ContainerReindex(FunctionContract):
         ctx.prove(z3.BoolVal(isinstance(sp, list) and len(sp) == e['k']) if not (isinstance(sp, list) and len(sp) == e['k'])
                   else z3.And(*[V.to_int_term(x) == y for x, y in zip(sp, e['new'])]) if e['k'] else z3.BoolVal(True), 'span_is_the_new_span', 'ensures')
         ctx.prove(z3.BoolVal(r.fields.get('index') == ['A', 'I'] and r.fields['index'] is not e['obj'].fields['index']), 'variable_order_carried_over_on_a_fresh_list', 'ensures')
+        ctx.prove(z3.BoolVal(r.fields.get('_strict') is e['obj'].fields.get('_strict') or r.fields.get('_strict') == e['obj'].fields.get('_strict')),
+                  'strict_setting_of_the_result_is_that_of_the_original', 'ensures', note=str(r.fields.get('_strict')))
         for name, kind, old_vals, default in (('A', 'float', e['a'], z3.fpNaN(F64)), ('I', 'int', e['iv'], z3.IntVal(0))):
             new_arr = r.fields.get('_' + name)
             okk = isinstance(new_arr, SArr) and new_arr.dtype == kind and new_arr is not e['obj'].fields['_' + name]
